@@ -207,3 +207,58 @@ Definition refused (o : obs) : bool :=
 Definition nothing_executed (o : obs) : bool :=
   is_empty (ob_resolvers o) && is_empty (ob_hooks o) && match ob_payloads o with [] => true | _ => false end.
 Definition oracle_malformed (o : obs) : bool := refused o && nothing_executed o.
+
+(** the JSON values a transport sends as text when it carries [o] *)
+Definition sent_json (t : transport) (o : op) : list json :=
+  match t with
+  | HttpGet => match o_vars o with Some m => [JObj m] | None => [] end
+  | HttpPostGraphql => []
+  | HttpPostUrlQuery => [body_json false o]
+  | HttpPostJson | WsGraphqlWs | WsTransportWs => [body_json true o]
+  end.
+
+(** ** "the response via transport t" *)
+Section Respond.
+  Variables Schema Features Ctx Doc Resp : Type.
+  Variable no_features : Features.
+  Variable parse_validate : Schema -> Features -> Z * Z -> bytes -> bytes -> option gomap -> pv_result Doc Resp.
+  Variable is_subscription : Doc -> bytes -> bool.
+  Variable execute : bool -> Schema -> exec_request Features Doc -> Z -> Resp.
+  Variable run_subscription : bool -> Schema -> exec_request Features Doc -> Z -> list Resp.
+  Variable pq_ext : (request -> Resp * list (event Features Ctx Doc)) -> request -> Resp * list (event Features Ctx Doc).
+  Variable qk : quirks.
+  Variable parse_std parse_jsi : bytes -> jparse.
+  Variable render : json -> bytes.
+
+  Definition data_of (out : list (ws_out Resp)) : list Resp :=
+    flat_map (fun x => match x with WsData _ r => [r] | WsComplete _ => [] end) out.
+
+  (** What a client that submits [o] through [t] (in a session whose context is [c]; on a socket:
+      a connection initialised with that context, operation id [id]) gets back — the response
+      payload(s), [None] when the envelope is refused — and what the pipeline was called with. *)
+  Definition respond (t : transport) (a : api Schema Features Ctx) (c : Ctx) (id : bytes) (o : op)
+    : option (list Resp) * list (event Features Ctx Doc) :=
+    match encode render t id o with
+    | WHttp e =>
+        match serve_graphql no_features parse_validate execute pq_ext qk parse_std a c e with
+        | (HttpOK r, tr) => (Some [r], tr)
+        | (HttpError _, tr) => (None, tr)
+        end
+    | WWs p f =>
+        let (hf, tr0) := handle_init (Doc := Doc) no_features a c in
+        match serve_ws parse_validate is_subscription execute run_subscription parse_jsi a p true hf (Some f) with
+        | (WsAnswers out, tr) => (Some (data_of out), tr0 ++ tr)
+        | (_, tr) => (None, tr0 ++ tr)
+        end
+    end.
+
+  (** two schemas no request can tell apart *)
+  Definition schema_obs_eq (s1 s2 : Schema) : Prop :=
+    (forall f dc q n v, parse_validate s1 f dc q n v = parse_validate s2 f dc q n v) /\
+    (forall h x c, execute h s1 x c = execute h s2 x c) /\
+    (forall h x c, run_subscription h s1 x c = run_subscription h s2 x c).
+End Respond.
+
+Arguments respond {Schema Features Ctx Doc Resp}.
+Arguments schema_obs_eq {Schema Features Doc Resp}.
+Arguments data_of {Resp}.
